@@ -21,6 +21,7 @@
 import TxVerif.Model.PQLayout
 import TxVerif.Model.PQAck
 import TxVerif.Model.PQWriter
+import TxVerif.Model.PQWriterFail
 namespace TxVerif
 
 def parseSizes (s : String) : Option (List Nat) :=
@@ -51,6 +52,16 @@ def parseWOps (s : String) : Option (List WOp) :=
     else if t.startsWith "w" then (t.drop 1).toString.toNat?.map fun k => WOp.write (List.replicate k 0)
     else none
 
+def parseFWOps (s : String) : Option (List FWOp) :=
+  (s.splitOn ",").mapM fun t0 =>
+    let bad := t0.endsWith "!"
+    let o := if bad then FlushOutcome.commitFail else FlushOutcome.ok
+    let t := if bad then t0.dropRight 1 else t0
+    if t == "n" then some (FWOp.next o)
+    else if t == "f" then some (FWOp.flush o)
+    else if t.startsWith "w" then (t.drop 1).toString.toNat?.map fun k => FWOp.write (List.replicate k 0) o
+    else none
+
 /-- evaluate one queue-layout request; `none` = malformed request -/
 def evalPQ (cmd : String) (args : List String) : Option String :=
   match cmd with
@@ -69,6 +80,18 @@ def evalPQ (cmd : String) (args : List String) : Option String :=
           let P ← p.toNat?; let pages ← pg.toNat?; let ws ← parseWOps ops
           if P < 64 then none else
           pure (" ".intercalate (runWriter P pages 0 ws).dump)
+      | _ => none
+  | "writeropsf" =>
+      -- `writeropsf <P> <bufferPages> <ops>`: calls with failing flushes ("!": every I/O of a flush transaction
+      -- started by this call fails = `commitFail`) on Model/PQWriterFail.lean; result = which calls return an
+      -- error + what a reader sees at the end
+      match args with
+      | [p, pg, ops] => do
+          let P ← p.toNat?; let pages ← pg.toNat?; let ws ← parseFWOps ops
+          if P < 64 then none else
+          let r := runWriterF P pages 0 ws
+          let errs := String.join (r.2.1.map fun b => if b then "1" else "0")
+          pure (s!"errs {errs} " ++ " ".intercalate r.1.dump)
       | _ => none
   | "ackplan" =>
       match args with
